@@ -866,7 +866,7 @@ def run(chk, tier):
     gaps = [json.loads(l[4:]) for l in r.printed if isinstance(l, str) and l.startswith("GAP ")]
     chk.extra["wide_units"] = {"items": wide_n, "kinds": WIDE_ABSTRACT + WIDE_TEXT,
                                "reached": {"%s@%s" % k: {x["field"]: x["max"] for x in v if x["max"] > 255} for k, v in sorted(reached.items())}}
-    if gaps:
+    if gaps and not chk.violations:      # (with violations the missing witnesses are wreckage: programs that failed were set aside)
         raise vlib.MachineryError("the performed units / splits do not reach what the codec specifications enumerate: %s" % gaps[:8])
     if fsec is not None:
         fsec.result()
